@@ -99,6 +99,7 @@ var prop = vlib.Prop[*Case]{
 	ID: "C19",
 	Rule: "case = running configuration (0..12 generated leaves written to the CONFIG store, a copy in STATE) + one streaming call on a harness-owned stream: Server.GetData (hook H7; 0..4 paths, 4 encodings, 3 data types), Datastore.Subscribe (1..4 subscriptions of 0..4 paths, sample intervals 1..6 ms) or Server.WatchDeviations + the way the client ends: data exhausted, context cancelled when send k happened, every send from index k on fails (with or without the context being cancelled), send k stalls and the context is cancelled later, cancellation after 0..25 ms (hits arbitrary ticks), a context that is cancelled before the call starts, optionally a slow consumer (1..4 ms per send); " +
 		"oracle = the handler returns within 3 s of the end event and within 3 s of its return no goroutine with a data-server frame that did not exist before the call is left; a panic anywhere kills the process and is reported through the case journal; " +
+		"a second, small family of cases runs the real DeviationMgr (its 30 s ticker is a constant, one case costs 30 s): 2..3 WatchDeviations clients, one consumer stalls in Send during the cycle, another client ends or a new one registers and ends - its handler must return within the bound; " +
 		"non-trivial = the end event happened while the call was active (at least one message sent or the call was blocked in a tick wait); distinct = distinct cases",
 	Gen:  gen,
 	Exec: Exec,
